@@ -25,19 +25,30 @@ type Abs struct {
 	Bytes []int  `json:"-"`
 	B     bool   `json:"-"`
 	I     int64  `json:"-"`
+	// "biglist": a list given by description, N members equal to Fill except member At (1-based) = Val
+	N, At     int  `json:"-"`
+	Val, Fill *Abs `json:"-"`
 }
 
 func (a *Abs) UnmarshalJSON(b []byte) error {
 	var raw struct {
-		T string          `json:"t"`
-		V json.RawMessage `json:"v"`
-		Q []int64         `json:"q"`
-		S string          `json:"s"`
-		P []int           `json:"p"`
-		K [][]int         `json:"k"`
+		T    string          `json:"t"`
+		V    json.RawMessage `json:"v"`
+		Q    []int64         `json:"q"`
+		S    string          `json:"s"`
+		P    []int           `json:"p"`
+		K    [][]int         `json:"k"`
+		N    int             `json:"n"`
+		At   int             `json:"at"`
+		Fill *Abs            `json:"fill"`
 	}
 	if err := json.Unmarshal(b, &raw); err != nil {
 		return err
+	}
+	if raw.T == "biglist" {
+		a.T, a.N, a.At, a.Fill = raw.T, raw.N, raw.At, raw.Fill
+		a.Val = &Abs{}
+		return json.Unmarshal(raw.V, a.Val)
 	}
 	a.T, a.Q, a.P, a.K, a.S = raw.T, raw.Q, raw.P, raw.K, raw.S
 	switch raw.T {
@@ -120,6 +131,16 @@ func (a *Abs) Simple() any {
 		return jp.Nothing
 	case "rx":
 		return regexp.MustCompile(bstr(a.P))
+	case "biglist":
+		r := make([]any, a.N)
+		for i := range r {
+			if i+1 == a.At {
+				r[i] = a.Val.Simple()
+			} else {
+				r[i] = a.Fill.Simple()
+			}
+		}
+		return r
 	}
 	panic("abs: unknown tag " + a.T)
 }
